@@ -34,6 +34,11 @@ def c06On (f : Fld) (op : String) (j : Json) : R Json :=
   | "mean_seq" => do
       let ds ← strs j "dirs"
       pure (resJ resToJson (meanSeq f ds))
+  | "integrate_chain" => do
+      -- `{"dirs": [d1, d2, …], "cums": [bool, bool, …]}`: f.integrate(d1, cumulative=c1).integrate(d2, cumulative=c2)…
+      let ds ← strs j "dirs"
+      let cs ← listOf boolOfJson (← fld j "cums")
+      pure (resJ resToJson (integrateChain f (ds.zip cs)))
   | "sel" => do
       let d ← strOfJson (← fld j "dim")
       pure (resJ meshToJson (sel f.mesh d))
@@ -60,6 +65,20 @@ def hstepOfJson (j : Json) : R C06.HStep := do
     pure (if tgt == "region" then .translateRegion v else .translateMesh v)
   | _ => throw s!"unknown history step {o}"
 
+/-- one step of a history with quarter turns: the steps above, or
+`{"op": "rotate90", "ax1": …, "ax2": …, "k": int, "ref": [q…] | null}` (`field.rotate90(…, inplace=True)`) -/
+def fstepOfJson (j : Json) : R C06.FStep := do
+  let o ← strOfJson (← fld j "op")
+  if o == "rotate90" then
+    let a1 ← strOfJson (← fld j "ax1")
+    let a2 ← strOfJson (← fld j "ax2")
+    let k ← intOfJson (← fld j "k")
+    let ref ← match fldOpt j "ref" with
+      | none => pure none
+      | some v => some <$> listOf ratOfJson v
+    pure (.rot a1 a2 k ref)
+  else .mesh <$> hstepOfJson j
+
 /-- driver ops of property C06 -/
 def c06 (op : String) (j : Json) : Option (R Json) :=
   match op with
@@ -74,14 +93,18 @@ def c06 (op : String) (j : Json) : Option (R Json) :=
       -- the model evolves the mesh itself: every state of the field along the in-place history,
       -- with the mesh it then has and the answers to the same requests
       let f ← fldOfJson (← fld j "field")
-      let steps ← listOf hstepOfJson (← fld j "steps")
+      let steps ← listOf fstepOfJson (← fld j "steps")
       let reqs ← arr (← fld j "reqs")
-      let outs ← (statesH f steps).mapM fun g => do
+      let outs ← (statesFS f steps).mapM fun g => do
         let rs ← reqs.toList.mapM fun r => do
           let o ← strOfJson (← fld r "op")
           c06On g o r
         pure (Json.mkObj [("mesh", meshToJson g.mesh), ("outs", .arr rs.toArray)])
-      pure (Json.mkObj [("ok", .arr outs.toArray), ("vol", ratToJson (histVol f.mesh steps))])
+      -- `vol`: accumulated volume factor; `itot`: integrate() of the final state as theorem `turns_history` gives it
+      -- (volume factor x initial cell volume x the per-component cell sums turned by the accepted quarter turns)
+      pure (Json.mkObj [("ok", .arr outs.toArray), ("vol", ratToJson (fhistVol f steps)),
+        ("itot", ratsJ (tab f.nvdim fun c =>
+          fhistVol f steps * dV f.mesh * (fhistTurn f steps (tab f.nvdim (csum f))).getD c 0))])
   | "integrate" => some do
       let f ← fldOfJson (← fld j "field")
       let cum ← boolOfJson (← fld j "cumulative")
